@@ -5,7 +5,7 @@ result of the integer parser fits int64 incl. the negation of 2^63; every range 
 tree lies inside the input).  The model reads its input only through total list operations on
 the bytes given, so it cannot depend on memory outside input[0, length) by construction; that
 the C code does not either is *monitored*, not proved: the same documents run (a) in the
-ASan+UBSan -O1 build with the input in an exact-size heap block, (b) in the -O2 -msse4.2 build
+ASan+UBSan -O1 build and in the clang MemorySanitizer build with the input in an exact-size heap block, (b) in the -O2 -msse4.2 build
 with the last input byte flush against a PROT_NONE page and the input pages read-only, at every
 start phase mod 16, followed by accessor / equality / hash / lookup scripts on the returned
 tree; outputs of (a), (b) and the model must be identical."""
@@ -24,7 +24,7 @@ SCRIPT_TAIL = "h:0 e:0:1 e:1:0 t:0 sg:0 sg:0.0 sg:0.1 lk:0:0.0 ck:0:1.0 sc:0:0.0
 def nasty_docs(rng):
     out = [b"\x00", b"a\x00b", b"\"a\x00b\"", b"[1 \x00 2]", b"\xff\xfe", b"\"\xc3\"", b"\\\xe2\x82", b":\xf0\x9f", b"#\xc3\xa9 1", b"\"\\u12",
            b"\\u00", b"\\", b"#", b"##", b"##I", b"##Na", b"##-In", b"\\newlin", b"\\spac", b"\\formfee", b"\\o37", b"\\o", b"1e", b"1e+", b"1.", b"-",
-           b"+", b"0x", b"0x1", b"36r", b"36rZ", b"1/", b"1_", b"1_0", b"9223372036854775807", b"-9223372036854775808", b"9223372036854775808",
+           b"+", b"0x", b"0x1", b"36r", b"36rZ", b"1/", b"1_", b"1_0", b"0xA_", b"0x1F_", b"07_", b"017_", b"2r1_", b"36rZ_", b"1_0_", b"1.5_", b"1e5_", b"1_N", b"0x_1", b"1/2_", b"9223372036854775807", b"-9223372036854775808", b"9223372036854775808",
            b"-9223372036854775809", b"99999999999999999999999999999999", b"99999999999999999999r1", b"2147483648r1", b"4294967296r0", b"0000000000000000000000036rZ", b"1e400", b"1e-400", b"0." + b"0" * 40 + b"1", b"1" * 18 + b"." + b"9" * 30,
            b"\"\"\"\n", b"\"\"\"\n a", b"\"\"\"\n a\n", b"\"\"\"\n  \\\"\"\"", b"#_", b"#_ ", b"^", b"^:a", b"#:", b"#:a", b"#:a{", b"{", b"#{", b"(", b"[",
            b"\"", b"\"\\", b"\"abc", b";", b"; x", b"#t", b"#t ", b"#inst \"x", b"a/", b"/a", b"a/b/c", b":", b"::", b":a/", b"[" * 120, b"#_" * 60 + b"1"]
@@ -73,6 +73,12 @@ def run(tier):
         for d in docs:
             lines.append("R %d %s" % (rng.choice([0, 0, 1, 8, 9]), C.hexs(d)))
         scripts = ["Q r0=%s r1=%s %s" % (C.hexs(d), C.hexs(d), SCRIPT_TAIL) for d in base + nasty_docs(rng)]
+        # strings larger than one arena block (16 KiB / 64 KiB / 128 KiB / 256 KiB), lengths not multiples of 8, materialised
+        # one after the other after the read (lazy allocations of odd sizes, dedicated blocks)
+        for big in (16383, 16385, 65537, 70000, 70001, 131073, 262147):
+            for small in (5, 5000, 5001, 20001):
+                d = b"[\"" + b"a" * big + b"\" \"" + b"b" * small + b"\" \"c\\n" + b"c" * (small + 3) + b"\"]"
+                scripts.append("Q r0=%s sg:0.0 sg:0.1 sg:0.2 sg:0.0 h:0 sg:0.1" % C.hexs(d))
         allv = lines + scripts
         # edn_value_compare is not modelled (address order for composites): crash / sanitizer monitoring only
         cmp_scripts = ["Q r0=%s r1=%s c:0:1 c:1:0 c:0.0:1.0 c:0:0.0" % (C.hexs(d), C.hexs(d)) for d in base]
@@ -86,6 +92,8 @@ def run(tier):
         runs = {}
         runs["san/heap"] = K.run_impl(cfg, allv, mode="san", prefix=["P 0"])
         runs["o2/guard-page"] = K.run_impl(cfg, allv, mode="o2", prefix=["P 1"])
+        # clang MemorySanitizer: every branch or address that depends on uninitialised memory is reported
+        runs["msan/heap"] = K.run_impl(cfg, allv, mode="msan", prefix=["P 0"], env={"MSAN_OPTIONS": "halt_on_error=1"})
         if tier == "thorough":
             runs["san/guard-page"] = K.run_impl(cfg, allv, mode="san", prefix=["P 1"])
             runs["o2/heap"] = K.run_impl(cfg, allv, mode="o2", prefix=["P 0"])
